@@ -344,7 +344,9 @@ func (in *Interp) formatValue(fr *frame, out *fmtOut, spec string, verb byte, t 
 		}
 		out.str("]")
 	case *ssa.Function, *closure, *ssa.Builtin:
-		out.str(in.ptrText(x))
+		// fmt prints a func value as its code address: fixed for a given binary, the same in
+		// every runtime and every process running it — not a heap address
+		out.str("0xFUNC")
 	case *gchan:
 		out.str(in.ptrText(x))
 	default:
